@@ -49,6 +49,10 @@ func (e LifeEv) String() string {
 
 const tickDur = 25 * time.Second
 
+// hostAnnounces is the max_receivers value every host of the searches sends with its connect,
+// as the real CLI does (the limit checks of POST /session and of /ws must agree about it).
+const hostAnnounces = 2
+
 // reference model
 type mSess struct {
 	created   bool
@@ -121,6 +125,8 @@ func (m *lifeModel) apply(e LifeEv, settleBy time.Duration) int {
 		switch {
 		case !m.sess[e.Sess].alive:
 			want = 404
+		case role == "sender" && m.cfg.MaxRecv > 0 && hostAnnounces > m.cfg.MaxRecv:
+			want = 429 // the host asks for more receivers than this server allows
 		case m.cfg.MaxWS > 0 && m.openCount() >= m.cfg.MaxWS:
 			want = 429
 		case role == "receiver" && m.cfg.MaxRecv > 0 && m.recvCount(e.Sess) >= m.cfg.MaxRecv:
@@ -227,7 +233,12 @@ func lifeBuild(cfg LimCfg, hist []LifeEv) *lifeWorld {
 			if e.Kind == "recv" {
 				role, peer = "receiver", fmt.Sprintf("r%d", len(w.clients))
 			}
-			c := connect(fmt.Sprintf("c%d", len(w.clients)), w.sess[e.Sess].Code, peer, role)
+			extra := ""
+			if role == "sender" {
+				extra = fmt.Sprintf("max_receivers=%d", hostAnnounces)
+			}
+			c := connectURL(fmt.Sprintf("c%d", len(w.clients)), wsURL(w.sess[e.Sess].Code, peer, role, extra))
+			c.Peer, c.Role = peer, role
 			c.Sess = e.Sess
 			w.clients = append(w.clients, c)
 			st = c.Status
@@ -905,7 +916,12 @@ func c14RateScenarios() []rateScenario {
 				return [][2]string{{"zero-is-not-unlimited", fmt.Sprintf("create %d answered %d with --max-sessions 0", i, s.Status)}}
 			}
 		}
-		connect("h", s.Code, "h", "sender")
+		if h := connectURL("h", wsURL(s.Code, "h", "sender", "max_receivers=50")); h.conn == nil {
+			return [][2]string{{"zero-is-not-unlimited", fmt.Sprintf("a host announcing 50 receivers was answered %d with --max-receivers-per-sender 0", h.Status)}}
+		}
+		if c := createSession("max_receivers=50"); c.Status != 201 {
+			return [][2]string{{"zero-is-not-unlimited", fmt.Sprintf("POST /session?max_receivers=50 answered %d with --max-receivers-per-sender 0", c.Status)}}
+		}
 		for i := 0; i < 24; i++ {
 			c := connect(fmt.Sprintf("c%d", i), s.Code, fmt.Sprintf("r%d", i), "receiver")
 			if c.conn == nil {
